@@ -165,6 +165,7 @@ def run(rep, ctx):
     number_rules(rep, F, FW)
     packing_rule(rep, F)
     defvar_rule(rep, F)
+    bound_record_rule(rep, F, FW)
     return rep
 
 
@@ -865,3 +866,138 @@ def defvar_rule(rep, F):
         okp = pa == {"k_": 1.0} and na == {"num_algebraic_cons": 1.0, "num_logical_cons": 1.0, "k_": -1.0}
     t6.check(okp, "position", short_loc(f.loc), "position = k_ (k_ >= 0) or num_algebraic_cons + num_logical_cons - k_ (objective -k_ - 1)",
              "the position written for a defined variable is `%s`: with logical constraints in the model the number names another item than the objective the variable belongs to" % got)
+
+
+# ---- T7: bound records ---------------------------------------------------------------------
+def bound_record_rule(rep, F, FW):
+    """Every (L, U) class is written as a record that ReadBounds decodes to the same pair."""
+    t7 = rep.rule("C03.T7", "TABLE",
+                  "bound records: for each class of (L, U) - free, upper only, lower only, range, equal - the code "
+                  "and values WriteBndRangeOrCompl prints are decoded by ReadBounds to the same pair", floor=5)
+    wb = [f for f in FW.funcs if f.name == "WriteBndRangeOrCompl" and not f.is_dependent()]
+    rb = [f for f in F.funcs if f.name == "ReadBounds" and not f.is_dependent()]
+    if not wb or not rb:
+        raise AnalysisBroken("WriteBndRangeOrCompl / ReadBounds not found")
+    w, r = wb[0], rb[0]
+    # reader: decode table from the switch
+    sw = [n for n in r.walk() if n["k"] == "SwitchStmt"]
+    if not sw:
+        raise AnalysisBroken("ReadBounds has no switch")
+    decode = {}
+    for code, seq in switch_sections(sw[0]).items():
+        if not isinstance(code, int):
+            continue
+        nread = 0
+        val = {}
+        okc = True
+        inner = set()
+        for st in seq:
+            for n in walk(st):
+                if n["k"] == "BinaryOperator" and n.get("op") == "=" and n["i"] not in inner:
+                    tgts = []
+                    x = n
+                    while x is not None and x["k"] == "BinaryOperator" and x.get("op") == "=":
+                        t = strip(kids(x)[0])
+                        tgts.append(t.get("name"))
+                        rhs = strip(kids(x)[1])
+                        x = rhs if rhs["k"] == "BinaryOperator" and rhs.get("op") == "=" else None
+                        if x is not None:
+                            inner.add(x["i"])
+                        last_rhs = rhs
+                    if not set(tgts) & {"lb", "ub"}:
+                        continue
+                    t_ = render(last_rhs).replace(" ", "")
+                    if "ReadDouble" in t_:
+                        src = ("read", nread)
+                        nread += 1
+                    elif t_ == "-infinity":
+                        src = "-inf"
+                    elif t_ == "infinity":
+                        src = "+inf"
+                    else:
+                        okc = False
+                        src = None
+                    for t in tgts:
+                        if t in ("lb", "ub") and t not in val.get("_done", set()):
+                            val[t] = src
+        if okc and "lb" in val and "ub" in val:
+            decode[code] = (val["lb"], val["ub"], nread)
+    if len(decode) < 5:
+        raise AnalysisBroken("ReadBounds: only %d bound codes decoded" % len(decode))
+
+    def cond(n, cls):
+        n = strip(n)
+        if n["k"] == "UnaryOperator" and n.get("op") == "!":
+            return not cond(kids(n)[0], cls)
+        if n["k"] == "BinaryOperator" and n.get("op") in ("&&", "||"):
+            a, b = cond(kids(n)[0], cls), cond(kids(n)[1], cls)
+            return (a and b) if n["op"] == "&&" else (a or b)
+        t = render(n).replace(" ", "").replace("this->", "")
+        table = {"L<=NegInfty()": cls["Linf"], "NegInfty()>=L": cls["Linf"], "L>NegInfty()": not cls["Linf"], "NegInfty()<L": not cls["Linf"],
+                 "U>=Infty()": cls["Uinf"], "Infty()<=U": cls["Uinf"], "U<Infty()": not cls["Uinf"], "Infty()>U": not cls["Uinf"],
+                 "L==U": cls["eq"], "U==L": cls["eq"], "L!=U": not cls["eq"], "U!=L": not cls["eq"],
+                 "k<=0": True, "k>0": False, "0>=k": True, "0<k": False, "k<1": True, "k>=1": False}
+        if t not in table:
+            raise AnalysisBroken("WriteBndRangeOrCompl: condition `%s` is not one of the bound-class tests" % render(n))
+        return table[t]
+
+    def fmt_of(e, cls):
+        e = strip(e)
+        while e["k"] == "ConditionalOperator":
+            c, a, b = kids(e)
+            e = strip(a if cond(c, cls) else b)
+        if e["k"] != "StringLiteral":
+            raise AnalysisBroken("WriteBndRangeOrCompl: format is not a literal")
+        return e.get("v", "")
+
+    def run_stmt(s, cls, out):
+        if s is None or out:
+            return
+        k = s["k"]
+        if k == "CompoundStmt":
+            for x in kids(s):
+                run_stmt(x, cls, out)
+        elif k == "IfStmt":
+            ch = [x for x in s["c"] if x is not None]
+            if cond(ch[0], cls):
+                run_stmt(ch[1], cls, out)
+            elif len(ch) > 2:
+                run_stmt(ch[2], cls, out)
+        else:
+            for c in walk(s):
+                if c["k"] in ("CallExpr", "CXXMemberCallExpr") and (c.get("callee") or "").split("::")[-1] == "apr":
+                    a = call_args(c)
+                    out.append((fmt_of(a[1], cls), [render(x).replace(" ", "") for x in a[2:]], c))
+                    return
+
+    body = [x for x in w.roots if x is not None and x["k"] == "CompoundStmt"]
+    classes = [("free", dict(Linf=True, Uinf=True, eq=False)), ("upper-only", dict(Linf=True, Uinf=False, eq=False)),
+               ("lower-only", dict(Linf=False, Uinf=True, eq=False)), ("range", dict(Linf=False, Uinf=False, eq=False)),
+               ("equal", dict(Linf=False, Uinf=False, eq=True))]
+    for cname, cls in classes:
+        out = []
+        run_stmt(body[-1], cls, out)
+        if not out:
+            t7.fail("class|%s" % cname, short_loc(w.loc), "no record is printed for the class %s" % cname)
+            continue
+        fm, args, call = out[0]
+        m = re.match(r"^(\d)", fm)
+        nconv = len(re.findall(r"%[-+ #0-9.]*[a-zA-Z]", fm))
+        code = int(m.group(1)) if m else None
+        vals = args[:nconv]
+        want = ("-inf" if cls["Linf"] else "L", "+inf" if cls["Uinf"] else ("L" if cls["eq"] else "U"))
+
+        def sem(v):
+            if v == "L":
+                return "-inf" if cls["Linf"] else "L"
+            if v == "U":
+                return "+inf" if cls["Uinf"] else ("L" if cls["eq"] else "U")
+            return "?" + v
+        got = None
+        if code in decode and nconv == decode[code][2] and len(vals) == nconv:
+            lbs, ubs, _ = decode[code]
+            got = tuple(sem(vals[x[1]]) if isinstance(x, tuple) else x for x in (lbs, ubs))
+        t7.check(got == want, "class|%s" % cname, short_loc(call.get("l")),
+                 "%s: record `%s` with %s is read back as (%s, %s)" % (cname, fm.strip(), vals, want[0], want[1]),
+                 "%s bounds (L, U) = (%s, %s) are written as `%s` with values %s, which ReadBounds decodes as %s" % (
+                     cname, want[0], want[1], fm.strip(), vals, got if got else "an unknown / malformed record"))
